@@ -72,17 +72,48 @@ def incCounter (c : Array UInt8) : Array UInt8 := Id.run do
       carry := v == 0
   return out
 
-/-- AES-128-CTR: requires a 16-byte key and a 16-byte IV -/
-def aes128Ctr (key iv data : Bytes) : Bytes := Id.run do
-  let rk := expandKey128 key.toArray
-  let d := data.toArray
-  let mut ctr := iv.toArray
-  let mut out : Array UInt8 := Array.mkEmpty d.size
-  for blk in [0:(d.size + 15) / 16] do
-    let ks := aesEncryptBlock rk ctr
-    for k in [0:16] do
-      if 16 * blk + k < d.size then out := out.push (d.getD (16 * blk + k) 0 ^^^ ks.getD k 0)
-    ctr := incCounter ctr
-  return out.toList
+/-- one keystream block: E_k(counter), 16 bytes (padded / cut to 16 by construction) -/
+def ctrBlock (rk : Array UInt8) (ctr : Array UInt8) : Bytes :=
+  ((aesEncryptBlock rk ctr).toList ++ List.replicate 16 0).take 16
+
+/-- `n` keystream blocks starting at counter `ctr` -/
+def keystream (rk : Array UInt8) : Array UInt8 → Nat → Bytes
+  | _, 0 => []
+  | ctr, n + 1 => ctrBlock rk ctr ++ keystream rk (incCounter ctr) n
+
+def xorStream (a b : Bytes) : Bytes := List.zipWith (· ^^^ ·) a b
+
+/-- AES-128-CTR: requires a 16-byte key and a 16-byte IV; data ⊕ keystream -/
+def aes128Ctr (key iv data : Bytes) : Bytes :=
+  xorStream data (keystream (expandKey128 key.toArray) iv.toArray ((data.length + 15) / 16))
+
+theorem ctrBlock_length (rk : Array UInt8) (ctr : Array UInt8) : (ctrBlock rk ctr).length = 16 := by
+  simp [ctrBlock]
+
+theorem keystream_length (rk : Array UInt8) : ∀ (ctr : Array UInt8) (n : Nat), (keystream rk ctr n).length = 16 * n
+  | _, 0 => by simp [keystream]
+  | ctr, n + 1 => by simp [keystream, ctrBlock_length, keystream_length rk (incCounter ctr) n]; omega
+
+theorem xorStream_length (a b : Bytes) (h : a.length ≤ b.length) : (xorStream a b).length = a.length := by
+  simp [xorStream, List.length_zipWith]; omega
+
+theorem xorStream_involutive : ∀ (a b : Bytes), a.length ≤ b.length → xorStream (xorStream a b) b = a
+  | [], _, _ => by simp [xorStream]
+  | x :: a, [], h => by simp at h
+  | x :: a, y :: b, h => by
+    have ih := xorStream_involutive a b (by simpa using h)
+    simp only [xorStream, List.zipWith_cons_cons] at ih ⊢
+    rw [ih]
+    congr 1
+    rw [UInt8.xor_assoc, UInt8.xor_self, UInt8.xor_zero]
+
+/-- **CTR mode is an involution**: decrypting what was encrypted under the same key and IV returns the data. -/
+theorem aes128Ctr_involutive (key iv data : Bytes) : aes128Ctr key iv (aes128Ctr key iv data) = data := by
+  have hks : data.length ≤ (keystream (expandKey128 key.toArray) iv.toArray ((data.length + 15) / 16)).length := by
+    rw [keystream_length]; omega
+  have hlen : (aes128Ctr key iv data).length = data.length := xorStream_length _ _ hks
+  unfold aes128Ctr at hlen ⊢
+  rw [hlen]
+  exact xorStream_involutive _ _ hks
 
 end FFS.Prim
